@@ -50,6 +50,13 @@ def run(ctx):
                    [('write', 'main', 'old'), ('write', 'd2/a', 'alias'), ('load', False)],
                    [('write', 'd1/a', 'old'), ('write', 'd2/a', 'old'), ('load', False), ('delete', 'd2/a'), ('load', False)],
                    [('load', False), ('setopt', not en), ('load', True), ('write', 'main', 'old'), ('load', False)],
+                   # an override that was there at the first load and is gone at the second ("nothing else ever
+                   # influences a decision": not what a file used to say), with and without a main file
+                   [('write', 'd1/b', 'old'), ('load', False), ('delete', 'd1/b'), ('load', False)],
+                   [('write', 'd1/a', 'new'), ('load', False), ('empty', 'd1/a'), ('load', False)],
+                   [('write', 'd2/a', 'old'), ('load', False), ('write', 'd2/a', 'new'), ('load', False), ('empty', 'd2/a'), ('load', False)],
+                   [('write', 'main', 'old'), ('load', False), ('empty', 'main'), ('load', False)],
+                   [('write', 'main', 'fixed'), ('write', 'd1/b', 'old'), ('load', False), ('delete', 'd1/b'), ('load', False)],
                    [('write', 'd1/a', 'alias'), ('load', False), ('setopt', not en), ('load', True), ('setopt', en), ('load', True)]]
             for style in ([rng.randrange(len(lc.STYLES))] if q else range(len(lc.STYLES))):
                 traces = []
